@@ -29,7 +29,8 @@ META = dict(
                'adsg_core.optimization.graph_processor.GraphProcessor._get_inactive_value'],
     bounds=dict(conn='as C10 (<= 6 declared variables, vector entries unbounded)', iterspec_idx='any integer',
                 bounds='any reals lo < hi'),
-    outside=['that selection-choice and design-variable-node activeness agree between enumeration, create=True and '
+    outside=['enum_vs_decode (auxiliary, concrete) on templates and 10 / 60 seeded random graphs, free problem and every single fix of the first two fixable variables',
+             'that selection-choice and design-variable-node activeness agree between enumeration, create=True and '
              'create=False decodes on whole graphs - that relation has no symbolic input (DESIGN.md 1.3)',
              'a variable not flagged conditionally active is active in every valid design: checked for connection '
              'variables per existence pattern only (the flag is merged over patterns by the graph processor)'],
